@@ -682,6 +682,9 @@ class type_enum(type_base):
             self.enum_i.enums,
             self._int_field_info.is_rand
         )
+        if self._init_val is not None:
+            # The initial value given to the constructor
+            self._int_field_info.model.set_val(self.enum_i.e2v(self._init_val))
         return self._int_field_info.model        
         
     def get_val(self):
